@@ -1,12 +1,12 @@
 package main
 
 import (
-	"unicode/utf8"
-	"math"
 	"encoding/json"
 	"fmt"
+	"math"
 	"sort"
 	"strings"
+	"unicode/utf8"
 
 	redact "github.com/cockroachdb/redact"
 )
@@ -252,6 +252,19 @@ var c14Containers = []struct {
 	{"map{a:0, b:F}", func(f interface{}) interface{} { return map[string]interface{}{"a": 0, "b": f} }},
 	{"[]interface{}{nil, true, \"\", F}", func(f interface{}) interface{} { return []interface{}{nil, true, "", f} }},
 	{"[]interface{}{[]byte(\"x\"), 'c', F}", func(f interface{}) interface{} { return []interface{}{[]byte("x"), 'c', f} }},
+	// elements with formatting methods before F: each dispatch saves/clears/restores formatter state on its own path
+	{"[]interface{}{Stringer, error, F}", func(f interface{}) interface{} { return []interface{}{strT{"s"}, errT{"e"}, f} }},
+	{"[]interface{}{Formatter, GoStringer, F}", func(f interface{}) interface{} { return []interface{}{fmtT{"f"}, goT{"g"}, f} }},
+	{"[]interface{}{SafeFormatter, Safe(1), Unsafe(2), F}", func(f interface{}) interface{} {
+		return []interface{}{safeFmtT{"k", "v"}, redact.Safe(1), redact.Unsafe(2), f}
+	}},
+	{"[]interface{}{RedactableString, (*Stringer)(nil), F}", func(f interface{}) interface{} {
+		return []interface{}{redact.RedactableString("r"), (*ptrStrT)(nil), f}
+	}},
+	{"struct{A: panicking Stringer, F} (panic report before F)", func(f interface{}) interface{} { return c14Pair{panStrT{"boom"}, f} }},
+	{"[]interface{}{panicking error, panicking Formatter, F} (panic report before F)", func(f interface{}) interface{} {
+		return []interface{}{panErrT{"eb"}, panFmtT{"fb"}, f}
+	}},
 }
 
 // c14AfterElement: the state a formatter sees inside a container does not depend on the elements before it.
@@ -267,6 +280,9 @@ func c14AfterElement(ci int, d Directive) string {
 		for _, pn := range []string{"fmt", "redact"} {
 			if pn == "fmt" && name == "SafeFormatter" {
 				continue
+			}
+			if pn == "fmt" && strings.Contains(c14Containers[ci].Name, "panic report") && (d.Wid != 0 || d.Prec != 0) {
+				continue // Go >= 1.21 fmt itself forgets width and precision after a panic report
 			}
 			run := func(arg interface{}) {
 				args := append(append([]interface{}{}, stars...), arg)
@@ -307,10 +323,10 @@ type namedInt int
 type namedStr string
 
 type (
-	namedF32  float32
-	namedF64  float64
-	namedC64  complex64
-	namedBS   []byte
+	namedF32 float32
+	namedF64 float64
+	namedC64 complex64
+	namedBS  []byte
 )
 
 // c14Operands: every basic kind with its zero value, its extremes and a value whose shortest rendering depends on
